@@ -73,6 +73,9 @@ fn gen_history(seed: u64, k: usize) -> (Vec<Step>, (String, String), usize) {
     if k % 5 == 4 {
         return gen_heavy_history(&mut rng);
     }
+    if k % 7 == 6 {
+        return gen_relabel_history(&mut rng);
+    }
     let clean = k % 2 == 1;
     let pool: Vec<Value> = if clean { value_pool().into_iter().filter(|v| !matches!(v, Value::Float(_))).collect() } else { value_pool() };
     let idx_label = rng.pick(&LABELS[..2]).to_string(); // A or B
@@ -160,6 +163,37 @@ fn gen_heavy_history(rng: &mut Rng) -> (Vec<Step>, (String, String), usize) {
         }
     }
     (steps, (l.into(), p.into()), 0)
+}
+
+/// Nodes of the indexed label later gain a label that was interned before theirs (or lose
+/// nothing): their indexed property is then set to values that other nodes of the label already
+/// have, so that a lookup served from an incomplete index is non-empty and no scan hides the gap.
+fn gen_relabel_history(rng: &mut Rng) -> (Vec<Step>, (String, String), usize) {
+    let (l, other, p) = ("B", "A", "p");
+    let mut steps = vec![stmt(format!("CREATE (:{other} {{uid: 1, {p}: 'a'}})"), Info::Create { uid: 1, labels: vec![other.to_string()] })];
+    steps.push(Step::CreateIndex(l.into(), p.into()));
+    let mut uid = 1i64;
+    for v in ["a", "m", "x", "m"] {
+        uid += 1;
+        steps.push(stmt(format!("CREATE (:{l} {{uid: {uid}, {p}: '{v}'}})"), Info::Create { uid, labels: vec![l.to_string()] }));
+    }
+    uid += 1;
+    steps.push(stmt(format!("CREATE (:{l} {{uid: {uid}}})"), Info::Create { uid, labels: vec![l.to_string()] }));
+    for _ in 0..1 + rng.below(2) {
+        let r = rng.below(3) as i64;
+        steps.push(stmt(format!("MATCH (n) WHERE n.uid % 3 = {r} SET n:{other}"), Info::AddLabel { label: other.to_string(), modulus: 3, rem: r }));
+    }
+    if rng.chance(1, 3) {
+        steps.push(if rng.chance(1, 2) { Step::Compact } else { Step::Reopen });
+    }
+    for v in ["a", "m", "zz", "a"] {
+        let r = rng.below(2) as i64;
+        steps.push(stmt(format!("MATCH (n:{l}) WHERE n.uid % 2 = {r} SET n.{p} = '{v}'"), Info::SetProp { label: l.to_string(), prop: p.to_string(), modulus: 2, rem: r }));
+        if rng.chance(1, 5) {
+            steps.push(Step::Compact);
+        }
+    }
+    (steps, (l.into(), p.into()), 1)
 }
 
 fn step_json(s: &Step) -> serde_json::Value {
